@@ -131,3 +131,49 @@ Qed.
 End Map.
 
 Print Assumptions map_err.
+
+(* ---------- the statement on the renderer model: float32 instance against the real instance ---------- *)
+From IVG Require Import NumCodec Color Calls Render GeomR.
+
+Lemma V_zero : V 0%Z = 0.
+Proof. unfold V, B2R. change (decode F32 0) with (FFin false 0 (-149)). cbn [sm]. ring. Qed.
+
+Section OnModel.
+Variables (s : rstate f32) (sR : rstate R) (vb : viewbox) (pal : list rgba) (x y : f32).
+Hypothesis Ew : r_w sR = r_w s.
+Hypothesis Eh : r_h sR = r_h s.
+Hypothesis Hw : (1 <= r_w s <= 2 ^ 24)%Z.
+Hypothesis Hh : (1 <= r_h s <= 2 ^ 24)%Z.
+Hypothesis Gvb : gf (vminx vb) /\ gf (vminy vb) /\ gf (vmaxx vb) /\ gf (vmaxy vb).
+Hypothesis Gxy : gf x /\ gf y.
+Hypothesis Hsx : / P40 <= V (vmaxx vb) - V (vminx vb).
+Hypothesis Hsy : / P40 <= V (vmaxy vb) - V (vminy vb).
+Hypothesis Bvb : Rabs (V (vminx vb)) <= P40 /\ Rabs (V (vminy vb)) <= P40 /\ Rabs (V (vmaxx vb)) <= P40 /\ Rabs (V (vmaxy vb)) <= P40.
+Hypothesis Bxy : Rabs (V x) <= P40 /\ Rabs (V y) <= P40.
+
+Let s1 := rreset N32 s vb pal.
+Let s1R := rreset (NR V) sR vb pal.
+
+(* the pixel coordinates the float32 renderer computes for an absolute viewBox point are within 7 * 2^-24 (relative)
+   plus 2^-150 of the exact affine image computed by the real-number instance of the same definition *)
+Theorem abs_point_error :
+  let px := absX N32 s1 x in let py := absY N32 s1 y in
+  let ex := absX (NR V) s1R (V x) in let ey := absY (NR V) s1R (V y) in
+  gf px /\ gf py /\
+  Rabs (V px - ex) <= 7 * u32 * Rabs ex + / IZR (2 ^ 150) /\
+  Rabs (V py - ey) <= 7 * u32 * Rabs ey + / IZR (2 ^ 150).
+Proof.
+  destruct Gvb as (G1 & G2 & G3 & G4). destruct Gxy as (G5 & G6).
+  destruct Bvb as (B1 & B2 & B3 & B4). destruct Bxy as (B5 & B6).
+  cbv zeta.
+  pose proof (map_err (r_w s) (vminx vb) (vmaxx vb) x G1 G3 G5 Hw Hsx B1 B3 B5) as [Gx Ex].
+  pose proof (map_err (r_h s) (vminy vb) (vmaxy vb) y G2 G4 G6 Hh Hsy B2 B4 B6) as [Gy Ey].
+  assert (RX : absX (NR V) s1R (V x) = IZR (r_w s) / (V (vmaxx vb) - V (vminx vb)) * (V x - V (vminx vb))).
+  { unfold absX, s1R, rreset. cbn. rewrite Ew. ring. }
+  assert (RY : absY (NR V) s1R (V y) = IZR (r_h s) / (V (vmaxy vb) - V (vminy vb)) * (V y - V (vminy vb))).
+  { unfold absY, s1R, rreset. cbn. rewrite Eh. ring. }
+  rewrite RX, RY. split; [exact Gx|]. split; [exact Gy|]. split; [exact Ex|exact Ey].
+Qed.
+End OnModel.
+
+Print Assumptions abs_point_error.
